@@ -237,7 +237,7 @@ Definition wide_ashr (dst0 a : list N) (amount packed : N) : list N :=
   let nb := unpack_nb packed in
   let width := unpack_width packed in
   let n := nw nb in
-  if (nb =? 0) || (width =? 0) then map1n (fun x => x) n dst0
+  if (nb =? 0) || (width =? 0) then dst0
   else
     let sign := sign_of a width in
     let d := wide_lshr n a amount in
